@@ -7,6 +7,7 @@ import (
 	"regexp"
 	"sort"
 	"strings"
+	"text/template/parse"
 
 	"verif/mlbcheck/chk"
 )
@@ -32,6 +33,8 @@ func init() {
 			"the same neighbour name are resolved first-come in map order (information only).",
 		Run: runC14,
 		Mutants: []Mutant{
+			{Name: "ipv6-networks-nested-under-ipv4", File: "internal/bgp/frr/templates/frr.tmpl",
+				Old: "  exit-address-family\n{{end }}\n\n{{- if gt (len .IPV6Prefixes) 0}}", New: "  exit-address-family\n{{ if gt (len .IPV6Prefixes) 0}}", Expect: "TPL"},
 			{Name: "session-key-without-interface", File: "internal/bgp/frr/frr.go",
 				Old: "\tpeer := s.PeerAddress\n\tif s.PeerInterface != \"\" {\n\t\tpeer = s.PeerInterface\n\t}\n", New: "\tpeer := s.PeerAddress\n", Expect: "SESSION-KEY"},
 			{Name: "routers-keyed-by-source-address", File: "internal/bgp/frr/frr.go",
@@ -318,6 +321,25 @@ func c14Structure(p *chk.Prog, r *chk.Report, ts *chk.TemplateSet) {
 	// called; the templates of the confirmed tree keep their names for the rules
 	ts.InlineRecordCalls(map[string]bool{"bfdprofile": true, "communityfilter": true, "largecommunityfilter": true, "localpreffilter": true,
 		"neighborenableipfamily": true, "neighborfilters": true, "neighborsession": true})
+	// the router's `network` statements: each family's block depends on that family's prefixes only
+	fam := r.Rule("TPL-NETWORK", "G template structure", "in frr.tmpl every line inside {{range .IPV4Prefixes}} / {{range .IPV6Prefixes}} (the router's network statements) lies under no {{if}} that tests the other family's prefix list", 2)
+	nNet := 0
+	for _, l := range ts.Lines("frr.tmpl") {
+		for _, pair := range [][2]string{{".IPV4Prefixes", "IPV6Prefixes"}, {".IPV6Prefixes", "IPV4Prefixes"}} {
+			if !l.InRangeOver(pair[0]) {
+				continue
+			}
+			nNet++
+			okCtx := true
+			for _, c := range l.Ctx {
+				if ifn, isIf := c.(*parse.IfNode); isIf && strings.Contains(ifn.Pipe.String(), pair[1]) {
+					okCtx = false
+				}
+			}
+			fam.Check("frr.tmpl:network"+pair[0]+":"+strings.TrimSpace(l.String()), 0, okCtx, "", "the network statements of one address family are rendered only when the router also has prefixes of the other family: a router (VRF) with IPv6 prefixes only originates nothing")
+		}
+	}
+	fam.Check("frr.tmpl:network-lines", 0, nNet >= 2, "", "no network statements under range .IPV4Prefixes / .IPV6Prefixes")
 	deny := r.Rule("TPL-DENY", "G template structure", "in template neighborfilters: there is a `route-map {{ID}}-in deny` entry; every `route-map {{ID}}-out permit` line is immediately followed by a `match ip|ipv6 address prefix-list` line (no unconditional permit); an entry that has a `set` line ends with `on-match next`, an entry without `set` does not; the `deny any` prefix-list lines are inside `if not .neighbor.HasV4Advertisements` / `HasV6Advertisements`", 10)
 	names := r.Rule("TPL-NAMES", "G template structure", "every prefix-list referenced by a `match` line is named by one of the naming functions applied to the template's neighbour, and a definition line `<family> prefix-list {{same function …}} …` exists (directly or through a variable assigned from that function) in neighborfilters or the filter templates it calls; the `match ip` / `match ipv6` keyword of a set-entry agrees with the V4 / V6 list it ranges over, and definitions use the family of the advertisement", 8)
 	lines := ts.Lines("neighborfilters")
